@@ -1,7 +1,7 @@
 """C02 - exact step set. Proof (partial): coq/Props/C02.v. Full statement: monitors.P_C02 on every implementation trace. Tie: trace validation (popped times, quiescence, completion)."""
 from .. import common, sched_check, monitors, gen
 
-KINDS = ['uncertified', 'impl_err:internal:past', 'model_err:past', 'notdone', 'notwaiting', 'quiesce_enabled', 'tables_anc', 'timemismatch']
+KINDS = ['uncertified', 'state', 'impl_err:internal:past', 'model_err:past', 'notdone', 'notwaiting', 'quiesce_enabled', 'tables_anc', 'timemismatch']
 
 
 def nontrivial(case, run, val):
